@@ -11,8 +11,15 @@ deriving DecidableEq, Repr
 
 /-- new (x, y) of a light position `p` (also of `points_at` for spot lights):
     point light: `(ts·p).x − region.x`, `(ts·p).y − region.y`;
-    spot light:  `(ts·p).x − region.x`, `(ts·p).y − region.x`  (sic: the code subtracts `region.x()` twice) -/
+    spot light:  the same (since fix 0aa4396; before, the code subtracted `region.x()` from y as well) -/
 def transformLightXY {α : Type} [Flt α] (k : LightKind) (ts : Transform α) (regionX regionY : α) (p : α × α) : α × α :=
+  let q := ts.mapPoint p
+  match k with
+  | .point => (Flt.sub q.1 regionX, Flt.sub q.2 regionY)
+  | .spot => (Flt.sub q.1 regionX, Flt.sub q.2 regionY)
+
+/-- `transform_light_source` before fix 0aa4396 -/
+def transformLightXYOld {α : Type} [Flt α] (k : LightKind) (ts : Transform α) (regionX regionY : α) (p : α × α) : α × α :=
   let q := ts.mapPoint p
   match k with
   | .point => (Flt.sub q.1 regionX, Flt.sub q.2 regionY)
